@@ -13,7 +13,9 @@ Open Scope N_scope.
    comparisons of processData, in source order) flags the header iff it breaks a rule of RFC 6455 5.2-5.5 /
    RFC 7692 6 (rfc_header_verdict), and every reason it gives is a broken rule.  The protocol state (OPEN / CLOSING)
    is not read by the cascade; what a flagged header causes in each state is C02_policy.
-   Proof: exhaustive vm_compute sweep over 16 contexts x 256 x 256 inside Coq, lifted to all configurations. *)
+   Proof (inside Coq, no bound left): both sides read the octets only through FIN, RSV1-3, opcode, MASK and the two
+   tests "7-bit length > 125" / "= 1"; the table is swept by vm_compute over all 16 contexts x 2048 field combinations
+   and carried to the 65536 octet pairs by two 256-value sweeps of the field extraction. *)
 Theorem C02_header_table : forall cf inside_message b0 b1, b0 < 256 -> b1 < 256 ->
   (hdr_viols cf inside_message b0 b1 = [] <-> rfc_header_verdict cf inside_message b0 b1 = []) /\
   (forall v, In v (hdr_viols cf inside_message b0 b1) -> In v (rfc_header_verdict cf inside_message b0 b1)).
